@@ -21,6 +21,43 @@ let char_of_ascii (Ascii (a, b, c, d, e, f, g, h)) =
 let rec ocaml_string = function EmptyString -> "" | String (c, r) -> String.make 1 (char_of_ascii c) ^ ocaml_string r
 
 let table = List.map (fun ((name, _), p) -> (ocaml_string name, p)) all_gen_progs
+let gtable = List.map (fun ((name, g), p) -> (ocaml_string name, (g, p))) all_gen_progs
+
+(* printers for the diagnostics of a rejected program *)
+let rec int_of_nat = function O -> 0 | S n -> 1 + int_of_nat n
+let s_dref = function Cur -> "d" | Last -> "l" | First -> "0"
+let s_src = function SVar r -> Printf.sprintf "reg%d" (int_of_nat r)
+                   | SData (d, off) -> Printf.sprintf "v[%s][i+%d]" (s_dref d) (int_of_nat off)
+let s_coef = function COne -> "1" | CTwo -> "2" | CHalf -> "2^-1"
+                    | CLo (d, j) -> Printf.sprintf "tab[%s][%d].lo" (s_dref d) (int_of_nat j)
+                    | CHi (d, j) -> Printf.sprintf "tab[%s][%d].hi" (s_dref d) (int_of_nat j)
+let s_nf n = if n = [] then "0" else String.concat " ^ " (List.map (fun (c, s) -> s_coef c ^ "*" ^ s_src s) n)
+let s_av = function
+  | AJunk -> "UNKNOWN" | AConst c -> Printf.sprintf "const 0x%02x" (int_of_n c)
+  | ATab (d, j, lh) -> Printf.sprintf "table[%s][%d][%d]" (s_dref d) (int_of_nat j) (int_of_nat lh)
+  | ALin n -> s_nf n
+  | ALo4 s -> s_src s ^ "&15" | AHi4 s -> s_src s ^ ">>4"
+  | ASrl (k, s) -> Printf.sprintf "srlw(%s,%d)" (s_src s) (int_of_n k)
+  | ASll (k, s) -> Printf.sprintf "sllw(%s,%d)" (s_src s) (int_of_n k)
+  | AShr1 s -> s_src s ^ ">>1"
+  | ASignC (s, c) -> Printf.sprintf "(%s>=128?0x%02x:0)" (s_src s) (int_of_n c)
+  | AOddC (s, c) -> Printf.sprintf "(%s&1?0x%02x:0)" (s_src s) (int_of_n c)
+  | ADbl s -> "2*" ^ s_src s ^ " mod 256"
+let s_kind = function KOne -> "P(x1)" | KTwo -> "Q(x2)" | KHalf -> "Rz(x2^-1)" | KTab j -> Printf.sprintf "R%d(table)" (int_of_nat j)
+let why name =
+  match List.assoc_opt name gtable with
+  | Some (g, Some p) ->
+    let a = analyse p in
+    let regs l = String.concat "; " (List.filter (fun s -> s <> "")
+                   (List.mapi (fun r v -> match v with ALin [(COne, SVar r')] when int_of_nat r' = r -> "" | AJunk -> ""
+                                                     | _ -> Printf.sprintf "reg%d=%s" r (s_av v)) l)) in
+    Printf.sprintf "rows=[%s] accumulators=[%s] after_init={%s} after_body={%s} stores=[%s] stray_stores=%d"
+      (String.concat "," (List.map s_kind (rows_of_gen g)))
+      (String.concat "; " (List.map (fun ((r, k), off) -> Printf.sprintf "reg%d:%s@%d" (int_of_nat r) (s_kind k) (int_of_nat off)) a.an_accs))
+      (regs (fst a.an_init)) (regs (fst a.an_body))
+      (String.concat "; " (List.rev_map (fun ((j, off), v) -> Printf.sprintf "par%d[i+%d]<-%s" (int_of_nat j) (int_of_nat off) (s_av v)) (snd a.an_fini)))
+      (List.length (snd a.an_pro) + List.length (snd a.an_init) + List.length (snd a.an_body))
+  | _ -> "not translated"
 
 let () =
   try
@@ -30,6 +67,11 @@ let () =
       (match toks.(0) with
        | "list" ->
          print_endline (String.concat " " (List.map (fun (n, p) -> n ^ (match p with Some _ -> "=translated" | None -> "=fallback")) table))
+       | "check" ->
+         print_endline (String.concat " " (List.map (fun (n, (g, p)) ->
+           n ^ (match p with None -> "=fallback" | Some _ -> if checker_opt g p then "=proved" else "=REJECTED")) gtable))
+       | "decoders" -> print_endline (String.concat " " (List.map ocaml_string untranslated_decoders))
+       | "why" -> print_endline (why toks.(1))
        | "gen" ->
          let fn = "raid_" ^ toks.(1) in
          let nd = int_of_string toks.(3) and np = int_of_string toks.(4) and size = int_of_string toks.(5) in
